@@ -128,6 +128,9 @@ class Run(object):
         return size * max(1, max(tt.ranks)) > 4 * MAX_DENSE or max(tt.ranks) > MAX_RANK_STORE or tt.order > 12
 
     def _store(self, dest, tt, prov, ancestors=frozenset()):
+        if any(int(r) == 0 for r in tt.ranks):
+            self.probes["result_with_rank0_bond_not_stored"] += 1
+            return False
         if self._too_big(tt):
             self.probes["result_too_large_not_stored"] += 1
             return False
@@ -308,7 +311,7 @@ class Run(object):
             p = M.structural_problem(tt)
             if p is not None:
                 self._viol("inconsistent-target(%s)" % api, "O2", {"problem": p})
-            if spec.get("consumes") or self._too_big(tt):
+            if spec.get("consumes") or self._too_big(tt) or any(int(r) == 0 for r in tt.ranks):
                 self._drop(target)
             else:
                 snap = M.Snapshot(tt)
